@@ -817,6 +817,8 @@ class Interp:
 
     def binop(self, op, a, b):
         t = type(op)
+        if isinstance(a, str) and t is ast.Mod:
+            return a                  # message formatting: opaque
         if isinstance(a, PObj) or isinstance(b, PObj):
             nm = {ast.BitAnd: '__and__', ast.BitOr: '__or__', ast.BitXor: '__xor__', ast.Add: '__add__',
                   ast.Sub: '__sub__', ast.Mult: '__mul__', ast.MatMult: '__matmul__'}.get(t)
